@@ -129,6 +129,15 @@ func main() {
 			return rep.Finish(*verif, seed, start)
 		}
 		c.R = rep
+		// what the normalisation passes did to the program before it was analysed (rename.go, inline.go)
+		for _, n := range c.InlineNotes {
+			rep.Notes = append(rep.Notes, "normalisation: "+n)
+		}
+		if os.Getenv("GMV_NOTES") != "" {
+			for _, n := range c.InlineNotes {
+				fmt.Println("NOTE:", n)
+			}
+		}
 		for k := range c.Pkgs {
 			rep.Packages = append(rep.Packages, k)
 		}
